@@ -96,3 +96,19 @@ theorem consumeB_only_gots (l : List CEv) : âˆ€ (S Q : Bytes), backsOf l = [] â†
     | back b => simp [backsOf] at hb
 
 end Scrapli.Queue.Chan
+
+namespace Scrapli.Queue.Chan.Aliased
+open Scrapli Scrapli.Queue.Chan
+
+/-- a read loop that always copies enqueues values: whatever the transport later does with its
+buffer, the consumers see `Chan.enqueued` -/
+theorem loop_copying (norm : Bytes â†’ Bytes) (reads : List Bytes) : âˆ€ (buf later : Bytes),
+    ((loop (fun _ => true) norm reads buf).1.map (resolve later)) = enqueued norm reads := by
+  induction reads with
+  | nil => intro buf later; simp [loop, enqueued]
+  | cons r rs ih =>
+    intro buf later
+    have := ih (overwrite buf r) later
+    cases hr : r.isEmpty <;> simp_all [loop, enqueued, resolve, List.filter_cons]
+
+end Scrapli.Queue.Chan.Aliased
